@@ -234,6 +234,29 @@ class W:
     def close(self): pass
 async def main():
     problems = []
+    # the head request's correlation id: an ordinary one, the last before the counter wraps, and 0 (the first after it)
+    for head_cid in (2 ** 31 - 1, 0):
+        for wrong in (7, None):
+            conn = AIOKafkaConnection("h", 1)
+            conn._reader = object(); conn._writer = W()
+            conn._read_task = asyncio.get_running_loop().create_future()
+            loop = asyncio.get_running_loop()
+            f1, f2 = loop.create_future(), loop.create_future()
+            req = MetadataRequest_v0([])
+            conn._requests.append((head_cid, req, f1)); conn._requests.append((1, req, f2))
+            body = bytes(8)
+            frame = struct.pack(">i", head_cid if wrong is None else wrong) + body
+            try:
+                conn._handle_frame(frame)
+            except Exception as e:
+                problems.append(("head id %d" % head_cid, "raised %r" % e)); continue
+            if wrong is None:
+                if not f1.done() or f1.exception() is not None or isinstance(f1.result(), (bytes, bytearray)) or f2.done():
+                    problems.append(("head id %d" % head_cid, "its own reply was not decoded and handed to it: %r" % (f1,)))
+            elif conn._reader is not None or not f2.done() or (f1.done() and f1.exception() is None):
+                problems.append(("head id %d" % head_cid, "a frame with correlation id %d did not close the connection" % wrong))
+            if f1.done() and not f1.cancelled(): f1.exception()
+            if f2.done() and not f2.cancelled(): f2.exception()
     for head_state in ("pending", "cancelled"):
         closed = []
         conn = AIOKafkaConnection("h", 1, on_close=lambda c, r: closed.append(r))
